@@ -19,6 +19,9 @@ from ..engine import HarnessError, Outcome, Part, Prop
 from . import common
 
 NAMES = ['LB', 'LD', 'LA', 'LC', 'LE', 'LF']   # display names: deliberately not in index order
+# names that only differ in letter case, are prefixes of each other, or sort differently as text and as numbers
+TRICKY = ['LA', 'La', 'lA', 'la', 'LB', 'Lb', 'L', 'LL', 'L1', 'L10', 'L2', 'L_', '_L', 'Z', 'a', 'LAa', 'DBLayer',
+          'DbLayer']
 
 
 def build(case):
@@ -190,7 +193,7 @@ class Func(Part):
             bases = [[]]
             for i in range(1, n):
                 bases.append(draw(st.lists(st.integers(0, i - 1), max_size=3, unique=True)))
-            names = list(draw(st.permutations(NAMES)))[:n]
+            names = list(draw(st.permutations(NAMES if draw(st.booleans()) else TRICKY)))[:n]
             kind = draw(st.sampled_from(['inst', 'class']))
             case = {'n': n, 'bases': bases, 'kind': kind, 'names': names}
             if kind == 'class' and not c3_ok(case):
@@ -242,6 +245,9 @@ class Func(Part):
 def e2e_cases(draw):
     spec = draw(gen.worlds(max_layers=5, min_layers=2, hooks='layer', kinds=('pass',), max_modules=3, depth=1,
                            max_tests=2, layer_decl=85, explicit_unit=True, max_children=3))
+    if draw(st.booleans()):
+        for L, nm in zip(spec['layers'], draw(st.permutations(TRICKY))):
+            L['name'] = nm
     names = [L['name'] for L in spec['layers']]
     lp = draw(common.layer_pattern_strategy(names)) if draw(st.integers(0, 2)) == 0 else []
     return {'spec': spec, 'layer': lp, 'seed': draw(st.integers(0, 10 ** 6))}
